@@ -945,16 +945,19 @@ class Interp:
     _SUMMARY = {}
 
     def _call_summary(self, n, st, vals):
-        """Guard helper `check(x)` (throws on some values): interval of the result and of each by-value integer
-        argument over the callee's *normal* returns.  -> (result interval | None, [(key, interval)], returns normally?)
+        """Callee with a body in the fact base: interval of its integer result over all its *normal* returns (a range test
+        inside the callee bounds what the caller receives), and -- guard helper `check(x)` that throws on some values -- of
+        each by-value integer argument at those returns.  -> (result interval | None, [(key, interval)], returns normally?)
         or None when there is nothing to learn."""
         g = self._callee(n)
-        if g is None or not any(m.get('k') == 'throw' or m.get('noret') for m in g.all_nodes()):
+        if g is None:
             return None
+        rr = type_range(g.retC)
         args = self._int_args(n, g, st, vals)
-        if not args:
-            return None
-        ck = (g.usr, g.pat, tuple((d, v) for (d, v, _k) in args))
+        throws = any(m.get('k') == 'throw' or m.get('noret') for m in g.all_nodes())
+        if rr is None and not (args and throws):
+            return None            # no integer result and no argument to learn about
+        ck = (id(g), g.usr, g.pat, tuple((d, v) for (d, v, _k) in args))
         hit = Interp._SUMMARY.get(ck)
         if hit is None:
             sub = self._sub_interp(g, init={('v', d): v for (d, v, _k) in args}, keep=True)
@@ -967,7 +970,9 @@ class Interp:
                 rv = None
                 per = {}
                 for (_nid, _mk, v, rst) in sub.res.return_states:
-                    if v is not None:
+                    if rr is not None:
+                        if v is None or not inside(v, rr):
+                            v = rr          # a return whose value is not tracked: anything of the result type
                         rv = v if rv is None else hull(rv, v)
                     for (d, v0, _k) in args:
                         x = rst.get(('v', d), v0)
